@@ -306,14 +306,27 @@ func runC14(c *Checker) {
 			return
 		}
 		for i, e := range phi.Edges {
-			if !phi.Block().Preds[i].Dominates(phi.Block()) {
+			if phi.Block().Dominates(phi.Block().Preds[i]) {
 				continue // back edge
 			}
-			if _, isPhi := e.(*ssa.Phi); isPhi {
+			if ep, isPhi := e.(*ssa.Phi); isPhi && offsetPhis[ep] {
 				continue
 			}
-			k, ok := intConst(e)
-			c.decide(ok && k == 0, "CHUNK-2", "Send|offset-initial", instrPos(phi), "the running offset starts at 0", "the running offset does not start at 0")
+			// a merge in front of the loop (`off := 0; if resume { off = saved }`) is looked
+			// through: every value that can arrive is the constant 0
+			allZero := true
+			bad := ""
+			for _, leaf := range expandValues(e) {
+				if lp, isPhi := leaf.(*ssa.Phi); isPhi && offsetPhis[lp] {
+					continue
+				}
+				if k, ok := intConst(leaf); !ok || k != 0 {
+					allZero = false
+					bad = w.canonFB(leaf)
+				}
+			}
+			c.decide(allZero, "CHUNK-2", "Send|offset-initial", instrPos(phi), "the running offset starts at 0",
+				"the running offset does not start at 0 (it can start at "+bad+"): the bytes in front of it are never handed over, so the peer's message is not the payload of this call")
 		}
 	})
 
